@@ -395,7 +395,10 @@ def rule_r4(ctx):
 
     def check_fn(f, poll, sup, muts, depth, via):
         ev = eval_sites(f, poll, sup, muts)
-        cut = relevance_cut(f)
+        # 'this is not the socket's own context' excuses a missing evaluation only for a descriptor that mirrors the
+        # state of the socket's own context; one computed from state all contexts share (rep / respondent recvpipes)
+        # changes whichever context took from it
+        cut = relevance_cut(f) if (NOT_READY.get(poll) or (None, None))[1] else {}
         edge_ok = lambda b, k: not (b in cut and k == cut[b])
         locks = [(s.b, s.i) for s in f.calls(LOCK)]
         starts = [(p[0], p[1] + 1) for p in locks] or [(f.entry, 0)]
